@@ -14,20 +14,20 @@ use serde_json::json;
 use std::marker::PhantomData;
 
 #[derive(Clone, Copy, Debug, PartialEq, Eq)]
-enum St {
+pub enum St {
     Disc,
     Connecting,
     Connected,
 }
 #[derive(Clone, Copy, Debug, PartialEq, Eq)]
-enum Exp {
+pub enum Exp {
     Transmit,
     Queue,
     Refuse,
 }
 
 /// the 29 packet kinds as minimal valid abstract packets (ids filled in later)
-fn kinds() -> Vec<(&'static str, AP)> {
+pub fn kinds() -> Vec<(&'static str, AP)> {
     let mut v = vec![];
     for ver in [Ver::V4, Ver::V5] {
         let n = |s: &str| -> &'static str { Box::leak(format!("v{} {}", ver.level(), s).into_boxed_str()) };
@@ -53,11 +53,31 @@ fn kinds() -> Vec<(&'static str, AP)> {
     v
 }
 
-fn owns_fresh_id(ap: &AP) -> bool {
+/// the 29 kinds plus acknowledgement variants (error reason codes, ids 1 and 2) for the fan-out from
+/// every reachable session state
+pub fn probe_kinds() -> Vec<(&'static str, AP)> {
+    let mut v = kinds();
+    let ver = Ver::V5;
+    for id in [1u32, 2] {
+        for (k, code, name) in [(AckKind::Pubrec, 0x80u8, "v5 PUBREC(err)"), (AckKind::Puback, 0x80, "v5 PUBACK(err)"), (AckKind::Pubcomp, 0x92, "v5 PUBCOMP(0x92)"), (AckKind::Pubrec, 0x10, "v5 PUBREC(0x10)")] {
+            v.push((Box::leak(format!("{name} id{id}").into_boxed_str()), AP::Ack { ver, kind: k, pid: id, code: Some(code), props: None }));
+        }
+        for k in [AckKind::Puback, AckKind::Pubrec, AckKind::Pubrel, AckKind::Pubcomp] {
+            for ver in [Ver::V4, Ver::V5] {
+                if id == 2 {
+                    v.push((Box::leak(format!("v{} {} id2", ver.level(), k.name()).into_boxed_str()), AP::Ack { ver, kind: k, pid: 2, code: None, props: None }));
+                }
+            }
+        }
+    }
+    v
+}
+
+pub fn owns_fresh_id(ap: &AP) -> bool {
     matches!(ap, AP::Publish { qos, .. } if *qos > 0) || matches!(ap, AP::Subscribe { .. } | AP::Unsubscribe { .. })
 }
 
-fn with_id(ap: &AP, id: u32) -> AP {
+pub fn with_id(ap: &AP, id: u32) -> AP {
     let mut a = ap.clone();
     match &mut a {
         AP::Publish { pid, qos, .. } if *qos > 0 => *pid = Some(id),
@@ -68,7 +88,7 @@ fn with_id(ap: &AP, id: u32) -> AP {
 }
 
 /// The MQTT rule table of the statement.
-fn expect(role: RoleK, conn_ver: Option<Ver>, st: St, need_store: bool, offline: bool, ap: &AP) -> Exp {
+pub fn expect(role: RoleK, conn_ver: Option<Ver>, st: St, need_store: bool, offline: bool, ap: &AP) -> Exp {
     let Some(cv) = conn_ver else { return Exp::Refuse };
     if cv != ap.ver() {
         return Exp::Refuse;
@@ -226,8 +246,33 @@ fn check_cell<P: Pid>(cell: &Cell, kname: &str, ap0: &AP, rep_v: &mut Vec<Violat
     let s1 = c.snap();
     let exp = expect(cell.role, cell.ver, cell.st, cell.need_store(), cell.offline, &ap);
     let pkt = bridge::build::<P>(&ap).ok().expect("build");
+    // compile-time-checked entry point: same events and same state as send(), wherever it exists
+    let mut checked: Option<(Vec<Ev>, mqtt::connection::core::verif_hooks::VerifState)> = None;
+    if P::W == 2 {
+        let any: &dyn std::any::Any = &c;
+        if let Some(c16) = any.downcast_ref::<ConnBox<u16>>() {
+            let mut c2 = c16.clone();
+            if let Some(p16) = bridge::build::<u16>(&ap).ok() {
+                if let Some(e) = checked_send_dyn(&mut c2, p16) {
+                    checked = Some((e, c2.snap()));
+                }
+            }
+        }
+    }
     let evs = c.send(pkt);
     let s2 = c.snap();
+    if let Some((ce, cs)) = &checked {
+        counts[0] += 0;
+        if ce != &evs || cs != &s2 {
+            rep_v.push(Violation {
+                rule: "c11.checked-send-differs".into(),
+                sig: format!("c11.checked-send-differs|{kname}|{:?}|{}|{:?}", cell.role, super::epc::ver_name(cell.ver), cell.st),
+                detail: format!("cell [{}] packet {kname}: checked_send returns {:?} but send returns {:?}{}", cell.name(), ce.iter().map(|e| e.short()).collect::<Vec<_>>(), evs.iter().map(|e| e.short()).collect::<Vec<_>>(), if cs != &s2 { format!("; states differ: {}", diff_snap(cs, &s2)) } else { String::new() }),
+                config: format!("c11 cell {}", cell.name()),
+                history: hist.iter().map(|h| json!(h)).collect(),
+            });
+        }
+    }
     hist.push(format!("send({}) -> [{}]", crate::conn::ap_short(&ap), evs.iter().map(|e| e.short()).collect::<Vec<_>>().join(", ")));
     let sent = evs.iter().any(|e| matches!(e, Ev::Send { ap: a, .. } if a.type_nibble() == ap.type_nibble() && a.pid() == ap.pid()));
     let errs = evs.iter().filter(|e| matches!(e, Ev::Error(_))).count();
@@ -303,6 +348,65 @@ impl<T, R> NotSendable for Probe<T, R> {}
 impl<T: Sendable<R, u16>, R: role::RoleType> Probe<T, R> {
     #[allow(dead_code)]
     const IS: bool = true;
+}
+
+trait NoCall<R: role::RoleType, T> {
+    fn call(_c: &mut mqtt::GenericConnection<R, u16>, _t: T) -> Option<Vec<mqtt::connection::GenericEvent<u16>>> {
+        None
+    }
+}
+impl<T, R: role::RoleType> NoCall<R, T> for Probe<T, R> {}
+impl<T: Sendable<R, u16>, R: role::RoleType> Probe<T, R> {
+    #[allow(dead_code)]
+    fn call(c: &mut mqtt::GenericConnection<R, u16>, t: T) -> Option<Vec<mqtt::connection::GenericEvent<u16>>> {
+        Some(c.checked_send(t))
+    }
+}
+
+/// `checked_send` with the concrete packet type, where the type is `Sendable` for the role
+pub fn checked_send_dyn(c: &mut ConnBox<u16>, p: mqtt::packet::GenericPacket<u16>) -> Option<Vec<Ev>> {
+    use mqtt::packet::GenericPacket as G;
+    macro_rules! arms {
+        ($conn:expr, $R:ty) => {
+            match p {
+                G::V3_1_1Connect(x) => <Probe<v3_1_1::Connect, $R>>::call($conn, x),
+                G::V3_1_1Connack(x) => <Probe<v3_1_1::Connack, $R>>::call($conn, x),
+                G::V3_1_1Subscribe(x) => <Probe<v3_1_1::Subscribe, $R>>::call($conn, x),
+                G::V3_1_1Suback(x) => <Probe<v3_1_1::Suback, $R>>::call($conn, x),
+                G::V3_1_1Unsubscribe(x) => <Probe<v3_1_1::Unsubscribe, $R>>::call($conn, x),
+                G::V3_1_1Unsuback(x) => <Probe<v3_1_1::Unsuback, $R>>::call($conn, x),
+                G::V3_1_1Publish(x) => <Probe<v3_1_1::Publish, $R>>::call($conn, x),
+                G::V3_1_1Puback(x) => <Probe<v3_1_1::Puback, $R>>::call($conn, x),
+                G::V3_1_1Pubrec(x) => <Probe<v3_1_1::Pubrec, $R>>::call($conn, x),
+                G::V3_1_1Pubrel(x) => <Probe<v3_1_1::Pubrel, $R>>::call($conn, x),
+                G::V3_1_1Pubcomp(x) => <Probe<v3_1_1::Pubcomp, $R>>::call($conn, x),
+                G::V3_1_1Disconnect(x) => <Probe<v3_1_1::Disconnect, $R>>::call($conn, x),
+                G::V3_1_1Pingreq(x) => <Probe<v3_1_1::Pingreq, $R>>::call($conn, x),
+                G::V3_1_1Pingresp(x) => <Probe<v3_1_1::Pingresp, $R>>::call($conn, x),
+                G::V5_0Connect(x) => <Probe<v5_0::Connect, $R>>::call($conn, x),
+                G::V5_0Connack(x) => <Probe<v5_0::Connack, $R>>::call($conn, x),
+                G::V5_0Subscribe(x) => <Probe<v5_0::Subscribe, $R>>::call($conn, x),
+                G::V5_0Suback(x) => <Probe<v5_0::Suback, $R>>::call($conn, x),
+                G::V5_0Unsubscribe(x) => <Probe<v5_0::Unsubscribe, $R>>::call($conn, x),
+                G::V5_0Unsuback(x) => <Probe<v5_0::Unsuback, $R>>::call($conn, x),
+                G::V5_0Publish(x) => <Probe<v5_0::Publish, $R>>::call($conn, x),
+                G::V5_0Puback(x) => <Probe<v5_0::Puback, $R>>::call($conn, x),
+                G::V5_0Pubrec(x) => <Probe<v5_0::Pubrec, $R>>::call($conn, x),
+                G::V5_0Pubrel(x) => <Probe<v5_0::Pubrel, $R>>::call($conn, x),
+                G::V5_0Pubcomp(x) => <Probe<v5_0::Pubcomp, $R>>::call($conn, x),
+                G::V5_0Disconnect(x) => <Probe<v5_0::Disconnect, $R>>::call($conn, x),
+                G::V5_0Pingreq(x) => <Probe<v5_0::Pingreq, $R>>::call($conn, x),
+                G::V5_0Pingresp(x) => <Probe<v5_0::Pingresp, $R>>::call($conn, x),
+                G::V5_0Auth(x) => <Probe<v5_0::Auth, $R>>::call($conn, x),
+            }
+        };
+    }
+    let r = match c {
+        ConnBox::C(conn) => arms!(conn, role::Client),
+        ConnBox::S(conn) => arms!(conn, role::Server),
+        ConnBox::A(conn) => arms!(conn, role::Any),
+    };
+    r.map(crate::conn::canon)
 }
 
 macro_rules! probe_row {
@@ -441,6 +545,39 @@ pub fn run(rep: &mut Report) {
     for v in viols {
         rep.violation(v);
     }
+    // fan-out from every reachable session state: refusals must leave no trace whatever the state holds
+    {
+        use super::epc::*;
+        use crate::ep::*;
+        use crate::explore::Limits;
+        for role in [RoleK::Client, RoleK::Server, RoleK::Any] {
+            for ver in [Ver::V4, Ver::V5] {
+                for auto in [true, false] {
+                    if !thorough && role == RoleK::Any && !auto {
+                        continue;
+                    }
+                    let mut c = EpCfg::new(&cfg_name("c11-fanout", role, Some(ver), &format!("auto={auto}")), role, Some(ver));
+                    c.auto_pub = auto;
+                    c.window = 2;
+                    c.alph = session_alph(ver == Ver::V5, 2);
+                    c.alph.peer_pub_q = vec![1, 2];
+                    c.alph.peer_ids = vec![1, 2];
+                    c.alph.peer_acks = vec![AckKind::Puback, AckKind::Pubrec, AckKind::Pubcomp, AckKind::Pubrel];
+                    c.alph.sub = true;
+                    c.alph.defer_pubrel = true;
+                    c.alph.send_probes = true;
+                    if !thorough {
+                        c.alph.peer_ack_ids = vec![1];
+                        c.alph.peer_ids = vec![1];
+                        c.alph.pub_q = vec![1, 2];
+                    }
+                    c.groups = vec!["c11"];
+                    run_cfg::<u16>(rep, c, if thorough { Limits::new(200, 400_000, 60.0) } else { Limits::new(200, 40_000, 4.0) }, false);
+                }
+            }
+        }
+        rep.floor("c11.fanout-refusal-checked", 1000);
+    }
     rep.count("c11.cells-transmit", counts[0]);
     rep.count("c11.cells-queue", counts[1]);
     rep.count("c11.cells-refuse", counts[2]);
@@ -449,9 +586,9 @@ pub fn run(rep: &mut Report) {
     rep.floor("c11.cells-queue", 10);
     rep.floor("c11.cells-refuse", 500);
     rep.floor("c11.compile-time-questions", 87);
-    rep.set_cov("states", json!(cs.len()));
-    rep.set_cov("transitions", json!(n));
-    rep.set_cov("traces_validated_against_impl", json!(n));
+    rep.add_cov("states", cs.len() as u64);
+    rep.add_cov("transitions", n);
+    rep.add_cov("traces_validated_against_impl", n);
     rep.set_cov("exhaustive", json!(true));
     rep.set_cov("rule", json!("every cell role{Client,Server,Any-as-client,Any-as-server} x version{3.1.1,5.0,undetermined} x status{disconnected (fresh / after a connection),connecting,connected} x persistent x offline, each reached by real calls, x 29 packet kinds; undetermined x non-disconnected is unreachable"));
     rep.sample(json!({"cells": cs.iter().take(4).map(|c| c.name()).collect::<Vec<_>>(), "kinds": ks.iter().map(|k| k.0).collect::<Vec<_>>()}));
